@@ -39,6 +39,14 @@ struct WebSocketClientProbe
     cl._upgradeComplete.store(true);
     cl._state.store(ws::WebSocketState::CONNECTED);
   }
+  /// put a never-connected client into the state it has after it SENT its upgrade request with
+  /// `key`: the 101 response is then part of the bytes fed to handleData()
+  static void primeAwaitingUpgrade(ws::WebSocketClient &cl, const std::string &key)
+  {
+    cl._wsKey = key;
+    cl._upgradeComplete.store(false);
+    cl._state.store(ws::WebSocketState::CONNECTING);
+  }
   static void feed(ws::WebSocketClient &cl, const std::uint8_t *p, std::size_t n) { cl.handleData(0, p, n); }
   static std::size_t buffered(ws::WebSocketClient &cl)
   {
@@ -93,6 +101,7 @@ struct Outcome
   std::uint16_t closeCode = 0;
   std::string closeReason;
   int errors = 0;
+  int connectCallbacks = 0;
   int closeSessionCalls = 0;
   bool active = true; // endpoint still willing to send data afterwards
   bool threw = false;
@@ -188,11 +197,23 @@ inline Outcome runServer(const std::string &wire, const std::vector<std::size_t>
 }
 
 #ifdef JOEGEN_IORA_VERIF_WS_CLIENT_PROBE
-inline Outcome runClient(const std::string &wire, const std::vector<std::size_t> &cuts)
+constexpr const char *kInprocKey = "dGhlIHNhbXBsZSBub25jZQ==";
+
+/// the server's answer to an upgrade request with kInprocKey
+inline std::string inprocUpgradeResponse()
+{
+  return "HTTP/1.1 101 Switching Protocols\r\nUpgrade: websocket\r\nConnection: Upgrade\r\nSec-WebSocket-Accept: " + refws::acceptFor(kInprocKey) + "\r\n\r\n";
+}
+
+/// feed `wire` cut at `cuts` to a fresh client. withUpgrade: the client is still waiting for the
+/// 101 response and `wire` starts with it (cuts are positions in the combined bytes), so the
+/// opening handshake is part of the segmentation.
+inline Outcome runClient(const std::string &wire, const std::vector<std::size_t> &cuts, bool withUpgrade = false)
 {
   quietLogs();
   Outcome o;
   auto cl = ws::WebSocketClient::create();
+  cl->setOnConnect([&o](const std::string &) { ++o.connectCallbacks; });
   cl->setOnTextMessage([&o](const std::string &t) { o.msgs.push_back(Msg{true, t}); });
   cl->setOnBinaryMessage([&o](const std::vector<std::uint8_t> &b) { o.msgs.push_back(Msg{false, std::string(b.begin(), b.end())}); });
   cl->setOnClose([&o](std::uint16_t code, const std::string &reason)
@@ -202,7 +223,8 @@ inline Outcome runClient(const std::string &wire, const std::vector<std::size_t>
                    o.closeReason = reason;
                  });
   cl->setOnError([&o](const std::string &) { ++o.errors; });
-  WebSocketClientProbe::prime(*cl);
+  if (withUpgrade) WebSocketClientProbe::primeAwaitingUpgrade(*cl, kInprocKey);
+  else WebSocketClientProbe::prime(*cl);
   try
   {
     std::size_t from = 0;
